@@ -370,7 +370,7 @@ def fuzz_query(rng) -> str:
     what a fixed list of typical invalid queries does not contain."""
     r = rng.random()
     if r < 0.25:
-        kind = rng.randrange(8)
+        kind = rng.randrange(9)
         if kind == 0:
             return "$[?" + "(" * rng.choice((30, 200, 600)) + "@.a" + ")" * rng.choice((30, 200, 600)) + "]"
         if kind == 1:
@@ -388,6 +388,11 @@ def fuzz_query(rng) -> str:
             return "$" + "[?@" * rng.choice((10, 60, 300)) + "]" * rng.choice((10, 60, 300))
         if kind == 6:
             return "$" + _fuzz_char(rng) + ".a"
+        if kind == 7 and rng.random() < 0.6:
+            # what an undecodable byte on the command line becomes (surrogateescape): a lone
+            # surrogate, in every place a character can stand
+            sur = rng.choice(("\udcff", "\udc80", "\ud800", "\udfff"))
+            return rng.choice(("$['\\u%s000']", "$[?@ == '\\u00%s1']", "$['a%sb']", "$.%s", "$[?match(@, '%s')]", "$[%s]", "$%s", "$[?@.a == %s]", "$['\\%s']", "$.a[?search(@, 'a%s')]", "$[?@ == \"%s\"]")) % sur
         return "$" + ".a" * rng.choice((200, 2000)) + rng.choice(("", ".", "["))
     f = Q.Features(max_segs=3, nested=rng.choice((1, 2)))
     text = Q.render(Q.gen_query(rng, f, 0, 1))
@@ -471,6 +476,8 @@ def gen_scenario(rng) -> Dict[str, Any]:
     delivery = rng.choice(("-q", "--query=", "-r"))
     if "\x00" in qtext or qtext.startswith("-"):
         delivery = "-r"  # no NUL in a real argv; a leading '-' would be taken for an option
+    if any(0xD800 <= ord(ch) <= 0xDFFF for ch in qtext):
+        delivery = rng.choice(("-q", "--query="))  # (a file cannot hold a lone surrogate: its bytes would be undecodable)
     # file names are part of the input space too
     n_doc = rng.choice(("/doc.json", "/doc.json", "/data/my doc.json", "/doc.jsonl", "/doc.json.gz", "/doc.json5", "/doc", "/d.JSON", "/doc.txt"))
     n_q = rng.choice(("/q.jsonpath", "/q.jsonpath", "/q.txt", "/query.json", "/$.a", "/my query"))
@@ -903,6 +910,10 @@ def finish(tier: str, base: int, merged: Dict[str, Any]) -> Dict[str, Any]:
             sc = gen_scenario(seeds.stream(seed, "workload"))
             if sc["fault"] == "over-deep" or sc["dkind"].startswith("large") or any("\x00" in a for a in sc["argv"]):
                 continue
+            try:
+                [os.fsencode(a) for a in sc["argv"]]
+            except UnicodeEncodeError:
+                continue  # (not every lone surrogate is an undecodable byte: this argv cannot exist)
             sc2 = dict(sc)
             sc2["doc_bytes"] = _doc_bytes(sc)
             ref = reference(sc2)
